@@ -268,12 +268,21 @@ def valid_frames():
     C["vtOpen"] = A.VTOpenRequest(vtClass="defaultTerminal", localVTSessionIdentifier=1)
     C["vtClose"] = A.VTCloseRequest(listOfRemoteVTSessionIdentifiers=[1])
     C["vtData"] = A.VTDataRequest(vtSessionIdentifier=1, vtNewData=b"ab", vtDataFlag=0)
+    # answers that do not fit the client: abort (no segmentation / too many segments) or a segmented ComplexACK
+    big = lambda: A.ReadPropertyMultipleRequest(listOfReadAccessSpecs=[
+        ReadAccessSpecification(objectIdentifier=("device", 1234), listOfPropertyReferences=[PropertyReference(propertyIdentifier="all")])])
+    C["readPropertyMultiple-big-unsegmentable"] = (big(), dict(sa=False, maxresp=0))
+    C["readPropertyMultiple-big-too-many-segments"] = (big(), dict(sa=True, maxresp=0, maxsegs=1))
+    C["readPropertyMultiple-big-segmented"] = (big(), dict(sa=True, maxresp=0, maxsegs=0))
     out = collections.OrderedDict()
     inv = 10
     for name, req in C.items():
         inv += 1
+        kw = dict(sa=(inv % 3 == 0))
+        if isinstance(req, tuple):
+            req, kw = req
         try:
-            out[name] = (wire(req, inv=inv, sa=(inv % 3 == 0)), False)
+            out[name] = (wire(req, inv=inv, **kw), False)
         except Exception as e:          # a request this version of the library cannot encode is not a case of C10
             out["!" + name] = (repr(e), False)
     # an unrecognised confirmed service choice: the ReadProperty frame with service choice 0x55
@@ -424,9 +433,16 @@ def run_scenario(sc):
             _ingest(app, batch)
             rec["out0"], rec["res0"] = _drain(app), _residual(app)
             quiet = max(CFG["tapp"], 4 * CFG["tseg"], (CFG["retries"] + 1) * CFG["tapdu"], (CFG["retries"] + 1) * CFG["tseg"])
-            rec["elapsed"] = quiet + 1000
-            vt.run_until(T0 + rec["elapsed"] / 1000.0, limit=20000)
-            rec["out1"], rec["res1"] = _drain(app), _residual(app)
+            # let every protocol timeout elapse; notifications the device queued for a subscriber that never answers
+            # (confirmed COV) time out one after the other, so keep going while a state machine is still timed
+            rec["elapsed"] = 0
+            while True:
+                rec["elapsed"] += quiet + 1000
+                vt.run_until(T0 + rec["elapsed"] / 1000.0, limit=20000)
+                r1 = _residual(app)
+                if (r1["cli"] == 0 and r1["timers"] == 0) or rec["elapsed"] >= 20 * (quiet + 1000):
+                    break
+            rec["out1"], rec["res1"] = _drain(app), r1
             rec["errors"] = _errors(ERRLOG)
             # the follow-up: a device that was told to stop communicating is told to resume first, as a client would
             rec["reenabled"] = app.smap.dccEnableDisable != "enable"
@@ -623,6 +639,11 @@ def generate(tier, seed, frames):
                        ("only-last", [s1]), ("first-then-unsegmented", [s0, wire(rp(), inv=90)]),
                        ("first-then-other-id", [s0, mk(1, False, rp_body[4:], inv=91)])):
         yield {"batch": [g(x) for x in seq], "label": {"k": "segments", "case": label}}
+    # a subscriber that never acknowledges: confirmed notifications queue up behind each other and time out in turn
+    sub = frames["subscribeCOV-confirmed"][0]
+    again = bytearray(sub)
+    again[8] = 0x77
+    yield {"batch": [g(sub), g(again), g(sub)], "label": {"k": "segments", "case": "cov-renewals-unanswered"}}
     # garbage interleaved with valid requests in the same batch
     for d, bc in [frames["deviceCommunicationControl-disable"], frames["readProperty"]]:
         garbage_pool.append((d, bc))
@@ -873,7 +894,10 @@ def main(tier, seed):
         "an unacknowledged segmented ComplexACK (first segment, retransmitted) counts as one reply",
         "after a DeviceCommunicationControl request earlier in the same batch nothing is demanded of later requests; a device found "
         "switched off is switched on by a valid DCC request before the follow-up",
-        "timers = SSM tasks in the scheduler heap (COV subscription lifetimes and DCC re-enable tasks are not leftovers)",
+        "timers = SSM tasks in the scheduler heap (COV subscription lifetimes and DCC re-enable tasks are not leftovers); the "
+        "residual state is taken once virtual time has passed every protocol timeout (Quiet(cfg) of Device.tla) and, if a state "
+        "machine is still timed then (confirmed COV notifications queued for a silent subscriber), after further such periods, "
+        "at most 20",
         "exceptions reaching core.run_once are observations, not violations",
     ]
     nw = int(os.environ.get("VERIF_TLC_WORKERS", "16"))
